@@ -1,6 +1,6 @@
 (** C10 - enum dispatch: the tag or string selects exactly the named variant. *)
-From Deserr Require Import Base Pointer Kinds Value Prog Utf8 Scalars Types Deser Monitors.
-From Deserr.proofs Require Import MiscProofs.
+From Deserr Require Import Base Pointer Kinds Value Prog Utf8 Scalars Types Deser Monitors Derive.
+From Deserr.proofs Require Import MiscProofs DeriveProofs.
 
 (** unit-only enum: exact, case-sensitive match ([String.eqb]) of the string against the
     effective variant names, first match; otherwise UnknownValue with all names in order *)
@@ -52,6 +52,27 @@ Theorem c10_variant_first_exact : forall vs s rv,
   exists pre post, vs = pre ++ rv :: post /\ rv_key rv = s /\ Forall (fun x => rv_key x <> s) pre.
 Proof. exact find_variant_first. Qed.
 
+
+(** where the names come from: the effective name of a variant is its own `rename`, else the
+    container's `rename_all` applied to its identifier, else the identifier (and the container's
+    `rename_all` never reaches the variant's fields: C07) *)
+Theorem c10_variant_names : forall ca v cv,
+  expand_variant ca v = Accept cv ->
+  exists va, read_vattrs (vr_attrs v) = Some va
+    /\ cv_ident cv = vr_ident v
+    /\ cv_key cv = key_name_for_ident (vr_ident v) (ca_rename_all ca) (va_rename va).
+Proof.
+  intros ca v cv H. destruct (expand_variant_scope ca v cv H) as (va & Hva & Hk & _). exists va. split; [exact Hva|]. split; [|exact Hk].
+  unfold expand_variant in H. rewrite Hva in H. destruct (vr_shape v); [inversion H; reflexivity| |discriminate].
+  destruct (named_struct _ _ _); cbn in H; inversion H; reflexivity.
+Qed.
+
+Check c10_variant_names : forall ca v cv,
+  expand_variant ca v = Accept cv ->
+  exists va, read_vattrs (vr_attrs v) = Some va
+    /\ cv_ident cv = vr_ident v
+    /\ cv_key cv = key_name_for_ident (vr_ident v) (ca_rename_all ca) (va_rename va).
+
 Check c10_unit_string : forall script a vs s l st,
   run script (run_unit_enum a vs (VStr s) l) st =
   match find_unit vs s with
@@ -95,3 +116,4 @@ Print Assumptions c10_tag_non_string.
 Print Assumptions c10_tag_names_no_variant.
 Print Assumptions c10_tag_selects.
 Print Assumptions c10_variant_first_exact.
+Print Assumptions c10_variant_names.
